@@ -14,7 +14,7 @@ def fnv(b):
     return h
 
 class Edge:
-    dd_at_rule = False; bl = False; blf = False; selfref = None      # defaults for ground truth pickled by earlier versions
+    dd_at_rule = False; bl = False; blf = False; selfref = None; rsp_empty = False      # defaults for ground truth pickled by earlier versions
     def __init__(s, idx):
         s.idx = idx; s.outs = []; s.n_imp_out = 0
         s.exp = []; s.imp = []; s.oo = []; s.vals = []
@@ -28,11 +28,13 @@ class Edge:
         c = 'cmd%d v%d' % (s.idx, s.ver)
         if s.rsp: c += ' @' + s.rsp
         return c
-    def rspcontent(s): return 'rsp%d.%d' % (s.idx, s.rspver)
+    def rspcontent(s):
+        # rsp_empty: the content EVALUATES to the empty string ("rspfile_content = $nothing"): the file must still be written (empty)
+        return '' if s.rsp_empty else 'rsp%d.%d' % (s.idx, s.rspver)
     def eval_command(s):
         """Edge::EvaluateCommand(incl_rsp_file=true)"""
         c = s.cmd()
-        if s.rsp: c += ';rspfile=' + s.rspcontent()
+        if s.rsp and s.rspcontent(): c += ';rspfile=' + s.rspcontent()      # EvaluateCommand appends it only when non-empty
         return c
     def reads(s): return s.exp + s.imp + s.hidden
     def manifest_ins(s): return s.exp + s.imp + s.oo
@@ -87,7 +89,7 @@ class Graph:
                 if e.generator: L.append('  generator = 1')
                 if e.deps: L.append('  deps = ' + e.deps)
                 if e.depfile: L.append('  depfile = ' + e.depfile)
-            if e.rsp: L += ['  rspfile = ' + e.rsp, '  rspfile_content = ' + e.rspcontent()]
+            if e.rsp: L += ['  rspfile = ' + e.rsp, '  rspfile_content = ' + (e.rspcontent() or '$nothing')]
             if e.dyndep and e.dd_at_rule and not e.pool and not getattr(e, 'bl', False) and not (e.blf and (e.restat or e.generator or e.deps or e.depfile)): L.append('  dyndep = ' + e.dyndep)
         for e in s.edges:
             outs = ' '.join(e.outs[:len(e.outs) - e.n_imp_out])
@@ -211,7 +213,9 @@ def gen_graph(rnd, nedges, feat=None, wf_reads=True):
                             if h in prod and h not in e.oo: e.oo.append(h)
             if g.pools and rnd.random() < 0.6: e.pool = rnd.choice(sorted(g.pools))
             elif rnd.random() < 0.08: e.pool = 'console'
-            if rnd.random() < f['rsp']: e.rsp = d + 'o%d.rsp' % idx
+            if rnd.random() < f['rsp']:
+                e.rsp = d + 'o%d.rsp' % idx
+                e.rsp_empty = rnd.random() < 0.15
         if rnd.random() < f['validations'] and idx > 0 and not e.phony:
             cand = [o for pe in g.edges for o in pe.outs if not pe.phony]
             if cand: e.vals = [rnd.choice(cand)]
